@@ -182,7 +182,7 @@ class RuleMd044(RulePlugin):
         part_context: str,
     ) -> None:
         col_adjust, line_adjust = ParserHelper.adjust_for_newlines(
-            string_to_check_lower, search_start, found_index
+            string_to_check_lower, 0, found_index
         )
         if line_adjust == 0 and start_y_offset == 0:
             assert col_adjust >= 0
